@@ -61,6 +61,11 @@ var c02Clocks = []struct {
 	{"K2.NotBefore", -2 * time.Hour, false},
 	{"K2.NotAfter", 2 * time.Hour, false},
 	{"K2.NotAfter+1s", 2*time.Hour + time.Second, false},
+	// sub-second positions (certificate bounds have one-second resolution, the clock does not)
+	{"NotBefore-1ns", -time.Hour - time.Nanosecond, false},
+	{"NotAfter+1ns", time.Hour + time.Nanosecond, false},
+	{"NotAfter+999ms", time.Hour + 999*time.Millisecond, false},
+	{"K2.NotAfter+1ns", 2*time.Hour + time.Nanosecond, false},
 }
 
 // "both-signed": the Response carries the signer state under test and its assertion a genuine
